@@ -521,6 +521,13 @@ def run(ctx):
     wsgi.access = fake_access
     response.access = fake_access
     results.os = Proxy(os, access=fake_access)
+    # the server here is not uWSGI: poor_ variables of the PROCESS
+    # environment must have no say (only the request environ and the
+    # application attributes do); point them at the place outside the root
+    saved_env = {k: os.environ.get(k)
+                 for k in ("poor_DocumentRoot", "poor_DocumentIndex")}
+    os.environ["poor_DocumentRoot"] = tree.top
+    os.environ["poor_DocumentIndex"] = "On"
     try:
         os.chdir(tree.top)
         cfgs = make_configs(tree)
@@ -811,6 +818,11 @@ def run(ctx):
         marks.append(("serve correspondence", time.time()))
     finally:
         wsgi.path, wsgi.access, response.access, results.os = saved
+        for key, val in saved_env.items():
+            if val is None:
+                os.environ.pop(key, None)
+            else:
+                os.environ[key] = val
         os.chdir(cwd0)
         tree.remove()
     ctx.notes.append("phase seconds: " + ", ".join(
